@@ -48,7 +48,8 @@ TVNext ==
                ELSE UNCHANGED found
             /\ UNCHANGED <<sc, nret, drops, execs, xi>>
        [] ev.e = "vctor" ->
-            /\ IF ev.some THEN Flag("duplicate-accepted") ELSE UNCHANGED found
+            /\ IF sc.ctor = "zst" THEN (IF ev.some THEN UNCHANGED found ELSE FlagP("C07", "duplicate-free-input-rejected"))
+               ELSE IF ev.some THEN Flag("duplicate-accepted") ELSE UNCHANGED found
             /\ UNCHANGED <<sc, nret, drops, execs, xi>>
        [] ev.e = "vpanic" ->
             /\ Flag("panicked") /\ UNCHANGED <<sc, nret, drops, execs, xi>>
